@@ -342,7 +342,9 @@ def apply_op(table, o: dict, rng: random.Random | None = None, enc: str = "max")
         return table.transpose()
     if op == "rstrip":
         return table.rstrip(aggressive=bool(o["c"]))
-    if op == "read":
+    if op == "optimize_width":
+        return table.optimize_width()
+    if op in ("read", "csv"):
         return None
     raise ValueError(op)
 
